@@ -4,12 +4,29 @@
 (*   A(0-) -> R_k(J_k) + c_k ,  R_k -> a_k b_k ,   all external spins 0      *)
 (*   density = | sum_k c_k (-1)^J q^J p^J B_J(q) B_J(p) BW_k(m_k) P_J(cos th_k) |^2 *)
 (*                                                                           *)
-(* One TLC state = one scenario: a non-empty set of the three possible       *)
-(* chains of a three-body decay, a spin J in 0..MaxJ for each active chain,  *)
-(* and for each active chain a coupling triple (total, g_ls of A->R c,       *)
-(* g_ls of R->a b) from a small lattice of Gaussian integers.                *)
+(* The model is a step machine on ONE model object per structure:            *)
+(*   structure  = a non-empty set of the three possible chains of a          *)
+(*                three-body decay with a spin J in 0..MaxJ per chain        *)
+(*                (fixed when the model is built),                           *)
+(*   parameter point = for every active chain one point of a lattice whose   *)
+(*                entries fix the coupling triple (total, g_ls of A->R c,    *)
+(*                g_ls of R->a b; Gaussian integers), the nominal mass       *)
+(*                (as a rational position inside the kinematic window) and   *)
+(*                the width (rational fraction of the window),               *)
+(*   Init       = the model as built (every chain at lattice point 1),       *)
+(*   SetParams(new) = set_params on the same object, moving it to another    *)
+(*                parameter point (masses, widths and couplings change).     *)
+(* One TLC state = (structure, current parameter point).  The reference      *)
+(* density is a function of the state only (it is assembled from the         *)
+(* lattice entry of the current point): whatever the implementation          *)
+(* remembers from earlier points of the behaviour (memoised momenta,         *)
+(* cached tables) must not show.  The harness replays, per structure, the    *)
+(* behaviour Walk (start, every other point once, back to the start) on a    *)
+(* real model and compares the density after every step, on the events of    *)
+(* every frame in Frames (parent at rest / same events boosted to a          *)
+(* laboratory frame: the closed form is invariant).                          *)
 (*                                                                           *)
-(* What TLC decides here (invariants, on every scenario):                    *)
+(* What TLC decides (invariants, on every state):                            *)
 (*  * UniqueLS : with natural parity P_R = (-1)^J the selection rules of     *)
 (*    LSCoupling (the module validated by C13) admit exactly one coupling in *)
 (*    each decay, (l,s) = (J,J) and (J,0): the closed form has one term.     *)
@@ -18,29 +35,39 @@
 (*    evaluated with the exact CG table of module Tables gives (-1)^J for    *)
 (*    A -> R c and +1 for R -> a b: this is where the (-1)^J of the property *)
 (*    comes from.                                                            *)
-(*  * Coupling : c_k = total * g1 * g2 in exact Gaussian-integer arithmetic. *)
-(* The scenarios, c_k, the signs and the tables PJ (Legendre, half-angle     *)
-(* form) and BWC (Blatt-Weisskopf) are written as JSON; the harness builds   *)
-(* the reference density from them.                                          *)
+(*  * Coupling : c_k = total * g1 * g2 in exact Gaussian-integer arithmetic; *)
+(*    lattice entries are well formed (mass strictly inside the window).     *)
+(*  * WalkIsBehaviour : Walk starts and ends at the initial point, every     *)
+(*    step is a SetParams transition, every state of the structure is        *)
+(*    visited.                                                               *)
+(* Postcondition: the Legendre and Blatt-Weisskopf table theorems of module  *)
+(* Tables; the JSON output (lattice with c_k, structures with their walks,   *)
+(* frames, PJ, BWC, signs) from which the harness builds the reference.      *)
 EXTENDS Tables
 
-CONSTANTS MaxJ,      \* largest resonance spin (4)
-          NCPL       \* number of points taken from the coupling lattice
+CONSTANTS MaxJ,          \* largest resonance spin (4)
+          NPT,           \* number of lattice points per chain (2 | 3)
+          HalfFraction   \* TRUE: three-chain structures use the points with an even number
+                         \* of non-default chains (balanced half fraction; quick tier budget)
 
-\* coupling lattice: triples <<total, g_ls(A -> R c), g_ls(R -> a b)>> of Gaussian
-\* integers <<re, im>>; the first is the default of a freshly built model
-CPLSeq == << <<<<1, 0>>, <<1, 0>>, <<1, 0>>>>,
-             <<<<1, 2>>, <<0, -1>>, <<1, 1>>>>,
-             <<<<-2, 1>>, <<1, 0>>, <<1, -2>>>>,
-             <<<<0, -1>>, <<2, 1>>, <<-1, 0>>>> >>
-CPL == {CPLSeq[i] : i \in 1..NCPL}
+\* lattice: <<total, g_ls(A -> R c), g_ls(R -> a b), mass position, width>>
+\* Gaussian integers <<re, im>>; rationals <<num, den>>: m0 = lo + pos (hi - lo),
+\* Gamma0 = width (hi - lo), (lo, hi) = (m_a + m_b, M - m_c).  Point 1 is the model as built.
+Lattice == << <<<<1, 0>>, <<1, 0>>, <<1, 0>>, <<1, 2>>, <<3, 25>>>>,
+              <<<<1, 2>>, <<0, -1>>, <<1, 1>>, <<1, 4>>, <<1, 25>>>>,
+              <<<<-2, 1>>, <<1, 0>>, <<1, -2>>, <<4, 5>>, <<9, 20>>>>,
+              <<<<0, -1>>, <<2, 1>>, <<-1, 0>>, <<13, 20>>, <<1, 5>>>> >>
+Frames == <<"rest", "lab">>
 
 LS == INSTANCE LSCoupling WITH MaxJ2 <- 2 * MaxJ, cfg <- st
 
 ChainIds == {1, 2, 3}        \* 1: R -> (1 2), spectator 3; 2: R -> (1 3), spectator 2; 3: R -> (2 3), spectator 1
-Scenarios ==
-    UNION {{<<"scn", J, c>> : <<J, c>> \in [act -> 0..MaxJ] \X [act -> CPL]}
-              : act \in (SUBSET ChainIds) \ {{}}}
+Structures == UNION {[act -> 0..MaxJ] : act \in (SUBSET ChainIds) \ {{}}}
+Start(act) == [k \in act |-> 1]
+Points(act) ==
+    IF HalfFraction /\ Cardinality(act) = 3
+    THEN {p \in [act -> 1..NPT] : Cardinality({k \in act : p[k] # 1}) % 2 = 0}
+    ELSE [act -> 1..NPT]
 Active(s) == DOMAIN s[2]
 
 CMul(x, y) == <<x[1] * y[1] - x[2] * y[2], x[1] * y[2] + x[2] * y[1]>>
@@ -68,8 +95,26 @@ HelicityFactor(J) ==
        /\ HSign1(J) = Sgn(J)
        /\ HSign2(J) = 1
 
-InitCF == st \in Scenarios
-NextCF == UNCHANGED vars
+----------------------------------------------------------------------------
+(* the step machine: st = <<"scn", J, pt>>, J the structure, pt the current point *)
+InitCF == st \in {<<"scn", J, Start(DOMAIN J)>> : J \in Structures}
+SetParams(new) ==
+    /\ new \in Points(Active(st))
+    /\ new # st[3]
+    /\ st' = <<"scn", st[2], new>>
+NextCF == \E new \in Points(Active(st)) : SetParams(new)
+
+\* the behaviour the harness replays on one model object: start, every other point, start
+Walk(J) ==
+    LET act == DOMAIN J
+    IN <<Start(act)>> \o SetToSeq(Points(act) \ {Start(act)}) \o <<Start(act)>>
+WalkIsBehaviour(J) ==
+    LET w == Walk(J)
+        act == DOMAIN J
+    IN /\ w[1] = Start(act) /\ w[Len(w)] = Start(act)
+       /\ Len(w) >= 3                                            \* P0, P1, ..., P0
+       /\ \A i \in 1..(Len(w) - 1) : w[i] # w[i + 1] /\ w[i + 1] \in Points(act)   \* SetParams enabled
+       /\ {w[i] : i \in 1..Len(w)} = Points(act)                 \* every state of the structure
 
 IsScn == st[1] = "scn"
 \* the two theorems depend on J only: constant-level tables, evaluated once by TLC
@@ -77,15 +122,23 @@ UniqueLSTab == [J \in 0..MaxJ |-> UniqueLS(J)]
 HelicityFactorTab == [J \in 0..MaxJ |-> HelicityFactor(J)]
 InvUniqueLS == IsScn => \A k \in Active(st) : UniqueLSTab[st[2][k]]
 InvHelicityFactor == IsScn => \A k \in Active(st) : HelicityFactorTab[st[2][k]]
-InvCoupling ==
-    IsScn => \A k \in Active(st) :
-        LET t == st[3][k]
-            c == Coupling(t)
-        IN \* |c|^2 = |t|^2 |g1|^2 |g2|^2  and c # 0
-           /\ c[1] * c[1] + c[2] * c[2]
-                = (t[1][1] * t[1][1] + t[1][2] * t[1][2]) * (t[2][1] * t[2][1] + t[2][2] * t[2][2])
-                    * (t[3][1] * t[3][1] + t[3][2] * t[3][2])
-           /\ c # <<0, 0>>
+LatticeOK(i) ==
+    LET t == Lattice[i]
+        c == Coupling(t)
+    IN \* |c|^2 = |t|^2 |g1|^2 |g2|^2  and c # 0
+       /\ c[1] * c[1] + c[2] * c[2]
+            = (t[1][1] * t[1][1] + t[1][2] * t[1][2]) * (t[2][1] * t[2][1] + t[2][2] * t[2][2])
+                * (t[3][1] * t[3][1] + t[3][2] * t[3][2])
+       /\ c # <<0, 0>>
+       \* nominal mass strictly inside the window, positive width
+       /\ t[4][1] > 0 /\ t[4][1] < t[4][2] /\ t[5][1] > 0 /\ t[5][2] > 0
+InvCoupling == IsScn => \A k \in Active(st) : LatticeOK(st[3][k])
+InvPoint == IsScn => st[3] \in Points(Active(st))
+InvWalk == IsScn => WalkIsBehaviour(st[2])
+\* masses change along the walk (otherwise a memoised nominal momentum could not show)
+InvWalkMovesMasses ==
+    IsScn => LET w == Walk(st[2]) IN
+             \A k \in Active(st) : \E i \in 1..(Len(w) - 1) : Lattice[w[i][k]][4] # Lattice[w[i + 1][k]][4]
 
 \* constant-level table (evaluated once by TLC)
 HSignTab == [J \in 0..MaxJ |-> HSign1(J) * HSign2(J)]
@@ -94,15 +147,19 @@ TablesTheorems ==
     /\ \A L \in 0..MaxL : BWExact(L) /\ BWRecurrence(L) /\ BWEnds(L) /\ BWDocumented(L)
     /\ \A J \in 0..MaxPJ : PJIsInteger(J) /\ PJBonnet(J) /\ PJEnds(J)
 
-ScnOut(s) ==
-    [chains |-> {<<k, s[2][k], s[3][k], Coupling(s[3][k]), HSignTab[s[2][k]]>> : k \in Active(s)}]
+AsPairs(f) == {<<k, f[k]>> : k \in DOMAIN f}
+StructOut(J) ==
+    LET w == Walk(J) IN <<AsPairs(J), [i \in 1..Len(w) |-> AsPairs(w[i])]>>
 PostCF ==
     /\ TLCGet("stats").diameter >= 0
     /\ TablesTheorems
     /\ JsonSerialize(IOEnv.OUT_FILE,
          [maxj |-> MaxJ,
-          nscn |-> Cardinality(Scenarios),
-          scenarios |-> {ScnOut(s) : s \in Scenarios},
+          npt |-> NPT,
+          nstates |-> SumFn([J \in Structures |-> Cardinality(Points(DOMAIN J))]),
+          frames |-> Frames,
+          lattice |-> [i \in 1..NPT |-> <<Lattice[i], Coupling(Lattice[i])>>],
+          structures |-> {StructOut(J) : J \in Structures},
           pj |-> {<<J, PJ(J)>> : J \in 0..MaxJ},
           bw |-> {<<L, BWC(L)>> : L \in 0..MaxL},
           sign |-> {<<J, HSignTab[J]>> : J \in 0..MaxJ}])
